@@ -24,6 +24,8 @@ def main():
     ctx = Ctx(a.pid, a.tier, seed)
     mod = importlib.import_module("checks." + a.pid)
     level = getattr(mod, "LEVEL", "proof")
+    if level not in ("exploration", "fault_enumeration", "model_checking", "proof", "translation_validation", "other"):
+        level = "proof"
     try:
         if a.replay:
             rc = mod.replay(ctx, a.replay)
